@@ -1,7 +1,9 @@
 -- tie T for C20, continued: the INNER loop of `fill_zero_roots` as regenerated from math/src/polynom/mod.rs on this
 -- run coincides with the inner loop of the model's `fillStep` (value and exact panic condition), for every
--- operations record.  First step towards `fill_zero_roots` = `Model.Poly.fillZeroRoots`; the outer loop and the
--- function itself are still tied by evaluation only.
+-- operations record, and so does one iteration of the OUTER loop (`fzrStep_eq`: `n -= 1; result[n] = 0;` inner loop =
+-- the model's `fillStep`).  Steps towards `fill_zero_roots` = `Model.Poly.fillZeroRoots`; the iteration of the outer
+-- loop over `xs` (elements in the model, indices in the regenerated code) and the function itself are still tied by
+-- evaluation only.
 import WinterProofs.Lemmas.C20Gen
 
 namespace C20G
@@ -49,5 +51,32 @@ theorem fzrInner_eq (xs : List α) (i : Nat) (hi : i < xs.length) : ∀ (js : Li
       simp only [hk, hk0, hk', hi, if_true, decide_true, Bool.true_and]
       exact ih _ (by simpa using hr)
     · simp [hk]
+
+/-- one iteration of the OUTER loop of `fill_zero_roots` (`n -= 1; result[n] = 0;` inner loop): the regenerated body
+    is the model's `fillStep`, and the model panics exactly when a regenerated bound fails -/
+theorem fzrStep_eq (xs : List α) (i : Nat) (hi : i < xs.length) (st : RootSt α)
+    (hr : st.result.length < 18446744073709551616) :
+    fillStep O xs.length st (xs.getD i O.zero) =
+      if Gen.Polynom.fill_zero_roots.for1_body_ok O.toX i st.result st.n xs = true
+      then .ok { result := (Gen.Polynom.fill_zero_roots.for1_body O.toX i st.result st.n xs).1,
+                 n := (Gen.Polynom.fill_zero_roots.for1_body O.toX i st.result st.n xs).2 }
+      else .panic (if st.n = 0 then "attempt to subtract with overflow" else "index out of bounds") := by
+  unfold fillStep
+  by_cases hn : st.n = 0
+  · unfold_gen Gen.Polynom
+    simp [hn]
+  · have hn1 : 1 ≤ st.n := by omega
+    rw [if_neg hn]
+    dsimp only
+    rw [setAt_eq]
+    by_cases hk : st.n - 1 < st.result.length
+    · rw [if_pos hk]
+      change Res.bind (loopM _ (st.result.set (st.n - 1) O.zero) _) _ = _
+      rw [fzrInner_eq O xs i hi _ _ (by simpa using hr)]
+      unfold_gen Gen.Polynom
+      simp only [toX_zero, hn1, hk, decide_true, Bool.true_and, hn, if_false]
+      split <;> simp_all [Res.bind]
+    · unfold_gen Gen.Polynom
+      simp [hk, hn, Res.bind]
 
 end C20G
